@@ -475,6 +475,37 @@ def _native_attr_values(tier, seed):
             for z in c:
                 if e and (y == z) and not (x == z):
                     return {"cases": cases, "failures": [{"key": "C08/transitive", "x": str(x), "y": str(y), "z": str(z)}], "exhaustive": True, "bound": ""}
+    # dense attributes over EVERY packable element type of the dialect (found by introspection): built twice from a list and once from the bytes of the
+    # first - equal, hashable, equal hashes, and an immutable payload (a bytes object, not a buffer a caller could write to)
+    import inspect
+
+    from xdsl.dialects import builtin as _B
+
+    elt_types = [c() for _n, c in sorted(vars(_B).items()) if inspect.isclass(c) and issubclass(c, _B._FloatType) and issubclass(c, _B.ParametrizedAttribute) and not inspect.isabstract(c)]
+    elt_types += [i1, i8, i32, _B.i64, _B.IndexType()]
+    for et in elt_types:
+        for vals in ([0, 1, 1], [1, 1, 1], []):
+            vals = [float(v) if isinstance(et, _B._FloatType) else v for v in vals]
+            built = []
+            for mk in (lambda: DenseArrayBase.from_list(et, vals), lambda: DenseArrayBase.from_list(et, list(vals)),
+                       lambda: _B.DenseIntOrFPElementsAttr.from_list(_B.TensorType(et, [len(vals)]), vals), lambda: _B.DenseIntOrFPElementsAttr.from_list(_B.TensorType(et, [len(vals)]), list(vals))):
+                try:
+                    built.append(mk())
+                except Exception:  # noqa: BLE001
+                    built.append(None)  # element type without a packing (f80, f128), not allowed in this attribute (index in a dense array) or unable to hold the value: not an instance
+            for x, y in ((built[0], built[1]), (built[2], built[3])):
+                if x is None or y is None:
+                    continue
+                cases += 1
+                z = type(x)(*[(_B.BytesAttr(bytes(p.data)) if isinstance(p, _B.BytesAttr) else p) for p in x.parameters])
+                try:
+                    ok = x == y == z and hash(x) == hash(y) == hash(z)
+                    payload_ok = all(type(p.data) is bytes for p in x.parameters if isinstance(p, _B.BytesAttr))
+                except TypeError as e:
+                    ok, payload_ok = False, str(e)
+                if not ok or payload_ok is not True:
+                    return {"cases": cases, "failures": [{"key": "C08/same-parameters", "attribute": str(x)[:120], "element type": str(et), "what": "dense attributes built from the same "
+                            f"parameters are not equal / hashable with equal hashes, or the payload is not an immutable bytes object ({payload_ok})"}], "exhaustive": True, "bound": ""}
     # every argument form of IntegerAttr (int / IntAttr value; width / IntegerType / IndexType) for boundary values
     for v in (0, 1, -1, 127, 128, 255, 256, -128, -129, 2**31, 2**32 - 1, 2**63, 2**64 - 1, -2**63, 2**64):
         cases += 1
@@ -482,7 +513,8 @@ def _native_attr_values(tier, seed):
         if f:
             return {"cases": cases, "failures": [dict(f, key="C08/same-parameters")], "exhaustive": True, "bound": ""}
     return {"cases": cases, "failures": [], "exhaustive": True, "bound": f"all pairs/triples over a pool of {len(a)} builtin attribute values built three times independently; "
-            "IntegerAttr built from every argument form (int / IntAttr; width / IntegerType of 3 signednesses / index; truncate_bits) for 15 boundary values"}
+            "IntegerAttr built from every argument form (int / IntAttr; width / IntegerType of 3 signednesses / index; truncate_bits) for 15 boundary values; "
+            "dense array / elements attributes over every packable element type of the dialect (all float formats, i1..i64, index) built twice from lists and once from bytes"}
 
 
 def scan_eq_overrides():
